@@ -36,7 +36,7 @@ func (c12) Batches(tier string, seed uint64) []core.Batch {
 	var b []core.Batch
 	b = append(b, spread("stream", 8, tierN(tier, 60, 600))...)
 	b = append(b, spread("verify", 8, tierN(tier, 1200, 6000))...)
-	return b
+	return append(b, conc(tierN(tier, 6, 40), "stream")...)
 }
 
 func (c12) Mandatory(tier string) []string {
@@ -543,6 +543,9 @@ func indexOf(xs []string, x string) int {
 }
 
 func (p c12) RunBatch(t *core.T, b core.Batch) {
+	if concDispatch(p, t, b) {
+		return
+	}
 	r := t.Rand(b.Name, fmt.Sprint(b.Arg))
 	switch b.Name {
 	case "stream":
